@@ -85,6 +85,9 @@ def configs(tier):
                 else:
                     bound = 2 if tier == "quick" else 3
                 out.append({"ref": name, "gt": gt, "pivot": pivot, "bound": bound})
+    out.append({"ref": "r3", "gt": ["a", "b"], "pivot": "float_pivot", "bound": None, "history": [["init", None]]})
+    out.append({"ref": "r3", "gt": None, "pivot": "int_pivot", "bound": 3, "history": [["init", ["a", "b"]]]})
+    out.append({"ref": "r2", "gt": None, "pivot": "float_pivot", "bound": None, "history": [["initref", "r3long"]]})
     return out
 
 
@@ -98,6 +101,12 @@ def make_fn_factory(cfg):
         if ref["reset"]:
             c.reset_bounds()
         s = pa.ShuffleContinuumSampler(pivot_type=cfg["pivot"])
+        for prev in cfg.get("history", []):
+            # non-initial state: the same sampler object was initialised before (other ground truth / reference)
+            if prev[0] == "init":
+                s.init_sampling(c, prev[1])
+            elif prev[0] == "initref":
+                s.init_sampling(build_continuum(REFS[prev[1]]["spec"]), None)
         s.init_sampling(c, cfg["gt"])
 
         def fn():
